@@ -33,73 +33,22 @@ from common import clist, cfloat, copt, cpair, cz, cn, cbool
 
 THEOREMS = [
     'C02_locus_sense_meaning',
-    'C02_so_locus_sense',
-    'C02_s_locus_sense',
-    'C02_sx_locus_sense',
-    'C02_sy_locus_sense',
-    'C02_sz_locus_sense',
-    'C02_px_locus_sense',
-    'C02_py_locus_sense',
-    'C02_pz_locus_sense',
-    'C02_c_x_locus_sense',
-    'C02_c_y_locus_sense',
-    'C02_c_z_locus_sense',
-    'C02_cx_locus_sense',
-    'C02_cy_locus_sense',
-    'C02_cz_locus_sense',
-    'C02_gq_locus_sense',
-    'C02_sq_locus_sense',
-    'C02_tx_locus_sense',
-    'C02_ty_locus_sense',
-    'C02_tz_locus_sense',
-    'C02_tx5_locus_sense',
-    'C02_ty5_locus_sense',
-    'C02_tz5_locus_sense',
-    'C02_p_locus_sense',
-    'C02_kx_locus_sense',
-    'C02_ky_locus_sense',
-    'C02_kz_locus_sense',
-    'C02_k_x_locus_sense',
-    'C02_k_y_locus_sense',
-    'C02_k_z_locus_sense',
-    'C02_kx_sheet_locus_sense',
-    'C02_ky_sheet_locus_sense',
-    'C02_kz_sheet_locus_sense',
-    'C02_k_x_sheet_locus_sense',
-    'C02_k_y_sheet_locus_sense',
-    'C02_k_z_sheet_locus_sense',
-    'C02_kx_sheet0_locus_sense',
-    'C02_ky_sheet0_locus_sense',
-    'C02_kz_sheet0_locus_sense',
-    'C02_k_x_sheet0_locus_sense',
-    'C02_k_y_sheet0_locus_sense',
-    'C02_k_z_sheet0_locus_sense',
-    'C02_x2_locus_sense',
-    'C02_y2_locus_sense',
-    'C02_z2_locus_sense',
-    'C02_x_plane_locus_sense',
-    'C02_y_plane_locus_sense',
-    'C02_z_plane_locus_sense',
-    'C02_x_cyl_locus_sense',
-    'C02_y_cyl_locus_sense',
-    'C02_z_cyl_locus_sense',
-    'C02_x_cone_locus_sense',
-    'C02_y_cone_locus_sense',
-    'C02_z_cone_locus_sense',
-    'C02_p3_locus_sense',
-    'C02_sq_test_value',
-    'C02_sq_positive_g_flipped',
-    'C02_locus_flipped_meaning',
-    'C02_sq_positive_g_refuted',
-    'C02_convert_plane_any_normal',
-    'C02_convert_cylinder_any_axis',
-    'C02_cone_surface_any_axis',
-    'C02_cone_aux_plane_any_axis',
-    'C02_tan_deg_atan',
+    'C02_every_card_locus_sense',
+    'C02_SO_S_SX_SY_SZ_locus_sense',
+    'C02_PX_PY_PZ_P_locus_sense',
+    'C02_CX_CY_CZ_C_X_C_Y_C_Z_locus_sense',
+    'C02_KX_KY_KZ_K_X_K_Y_K_Z_locus_sense',
+    'C02_K_sheet_locus_sense',
+    'C02_GQ_SQ_locus_sense',
+    'C02_TX_TY_TZ_locus_sense',
+    'C02_X_Y_Z_plane_cylinder_locus_sense',
+    'C02_X_Y_Z_cone_locus_sense',
+    'C02_P_three_points_locus_sense',
     'C02_orient_plane_ok',
-    'C02_spec_p3_through_points',
-    'C02_spec_p3_orientation',
-    'C02_spec_xyz_contains_points',
+    'C02_sq_positive_g_flipped',
+    'C02_sq_positive_g_refuted',
+    'C02_convert_any_axis',
+    'C02_spec_sanity',
 ]
 
 TRUSTED = [
